@@ -141,7 +141,8 @@ reg("C07", "proof",
     assumptions=["a valid left pixel carries a finite disparity; the window offset fits twice in the image (mask_border's precondition)"])
 other("C09", "right after the disparity step a pixel with a computable cost lies inside the sampled interval (postcondition "
       "within_interval of WinnerTakesAll.to_disp, proved over symbolic datasets); the later steps keep a valid pixel between "
-      "valid disparities: refinement stays inside the pixel's interval (C06 obligations), the median filter puts a pixel between two "
+      "valid disparities: refinement moves a sample by at most half a sample and only when it is the best of its three costs "
+      "(Vfit / Quadratic.refinement_method and loop_refinement, the C06 obligations, also run here), the median filter puts a pixel between two "
       "valid disparities of its window (C10), filling takes values between valid disparities of the map (C14); frame of cv_masked "
       "proved: masking writes the cost volume and its validity mask only -- not the caller's disparity grids nor the images ("
       + FRAME_NOTE + "); interval independence of the costs themselves (a two-run property of the cost computation) and "
@@ -170,8 +171,12 @@ other("C12", "frames of the four confidence_prediction methods and of the cost_v
       "appended to the confidence variable of the cost volume / disparity datasets, the cost volume values, the images and the "
       "existing arrays are not written (" + FRAME_NOTE + "); prange race-freedom of the kernels (C18); glue contract of the "
       "callback (indicator suffix); the indicator values:", trusted=FRAME_TRUSTED)
-other("C13", "criteria.validity_mask (flags of a pixel depend on its column, the interval and the image width only) proved; "
-      "dependency cone / crop independence of whole pipelines:")
+other("C13", "criteria.validity_mask (flags of a pixel depend on its column, the interval and the image width only) proved; the "
+      "functions that process an image in internal blocks are proved position-independent for every image size -- each output pixel "
+      "is a function of its own window / cost column only, wherever the 100- or 50-pixel block boundaries fall: "
+      "argmin_split / argmax_split (C03), MedianFilter.median_filter and BilateralFilter.filter_bilateral (C10), and they write into "
+      "fresh arrays only (assigns()); dependency cone / crop independence of whole pipelines, float accumulation order:",
+      trusted=["assumed contracts on np.argmin/np.argmax/np.array_split/np.nanmedian/as_strided as listed under C03 and C10"])
 other("C15", "frames proved: FixedZoomPyramid.disparity_range, prepare_pyramid and fill_nodata_image leave the images and the "
       "coarser disparity dataset untouched; run_multiscale only rebinds the machine's fields and pops its own pyramids ("
       + FRAME_NOTE + "); scale schedule and interval propagation:", trusted=FRAME_TRUSTED)
